@@ -87,6 +87,7 @@ char *s_humansize(uint64_t);
 /* http (no allocation in the shim: one request at a time, static storage) */
 struct s_resp { int status; size_t nheaders; size_t bodylen; uint8_t *body; };
 typedef int (*s_http_cb)(void *, const struct s_resp *);
+void s_http_tls(const char *host); /* NULL: http_request; else https_request(..., host) */
 void *s_http_request(void *addrs, const char *method, const char *path, int nh, const uint8_t *body, size_t bodylen, size_t maxrlen, s_http_cb, void *);
 void s_http_cancel(void *);
 void *s_aes_expand(const uint8_t *key, size_t len);
